@@ -1,0 +1,133 @@
+//go:build verif
+
+package dualquat
+
+// Copyright ©2026 The Gonum Authors. All rights reserved.
+// Use of this source code is governed by a BSD-style
+// license that can be found in the LICENSE file.
+
+// Machine-checked contracts for the dual quaternion arithmetic of this package
+// (verification hook, build tag verif; this file contains comments only).
+// The contract language and the checker are described in /verif/DESIGN.md.
+//
+// A dual quaternion is r + dϵ with quaternions r, d and ϵ² = 0; its product is
+// (r1*r2) + (r1*d2 + d1*r2)ϵ with the Hamiltonian product of num/quat (macros
+// quat.mulR, quat.mulI, quat.mulJ, quat.mulK). The functions are specified
+// bit-exactly component by component (same: identical float64 values); the
+// algebraic laws are lemmas over the same macros in exact (real) arithmetic.
+
+//@ func Add props: C18
+//@ writes nothing
+//@ ensures same(result.Real.Real, x.Real.Real + y.Real.Real)
+//@ ensures same(result.Real.Imag, x.Real.Imag + y.Real.Imag)
+//@ ensures same(result.Real.Jmag, x.Real.Jmag + y.Real.Jmag)
+//@ ensures same(result.Real.Kmag, x.Real.Kmag + y.Real.Kmag)
+//@ ensures same(result.Dual.Real, x.Dual.Real + y.Dual.Real)
+//@ ensures same(result.Dual.Imag, x.Dual.Imag + y.Dual.Imag)
+//@ ensures same(result.Dual.Jmag, x.Dual.Jmag + y.Dual.Jmag)
+//@ ensures same(result.Dual.Kmag, x.Dual.Kmag + y.Dual.Kmag)
+
+//@ func Sub props: C18
+//@ writes nothing
+//@ ensures same(result.Real.Real, x.Real.Real - y.Real.Real)
+//@ ensures same(result.Real.Imag, x.Real.Imag - y.Real.Imag)
+//@ ensures same(result.Real.Jmag, x.Real.Jmag - y.Real.Jmag)
+//@ ensures same(result.Real.Kmag, x.Real.Kmag - y.Real.Kmag)
+//@ ensures same(result.Dual.Real, x.Dual.Real - y.Dual.Real)
+//@ ensures same(result.Dual.Imag, x.Dual.Imag - y.Dual.Imag)
+//@ ensures same(result.Dual.Jmag, x.Dual.Jmag - y.Dual.Jmag)
+//@ ensures same(result.Dual.Kmag, x.Dual.Kmag - y.Dual.Kmag)
+
+//@ func Mul props: C18
+//@ writes nothing
+//@ ensures same(result.Real.Real, quat.mulR(x.Real.Real, x.Real.Imag, x.Real.Jmag, x.Real.Kmag, y.Real.Real, y.Real.Imag, y.Real.Jmag, y.Real.Kmag))
+//@ ensures same(result.Real.Imag, quat.mulI(x.Real.Real, x.Real.Imag, x.Real.Jmag, x.Real.Kmag, y.Real.Real, y.Real.Imag, y.Real.Jmag, y.Real.Kmag))
+//@ ensures same(result.Real.Jmag, quat.mulJ(x.Real.Real, x.Real.Imag, x.Real.Jmag, x.Real.Kmag, y.Real.Real, y.Real.Imag, y.Real.Jmag, y.Real.Kmag))
+//@ ensures same(result.Real.Kmag, quat.mulK(x.Real.Real, x.Real.Imag, x.Real.Jmag, x.Real.Kmag, y.Real.Real, y.Real.Imag, y.Real.Jmag, y.Real.Kmag))
+//@ ensures same(result.Dual.Real, quat.mulR(x.Real.Real, x.Real.Imag, x.Real.Jmag, x.Real.Kmag, y.Dual.Real, y.Dual.Imag, y.Dual.Jmag, y.Dual.Kmag) + quat.mulR(x.Dual.Real, x.Dual.Imag, x.Dual.Jmag, x.Dual.Kmag, y.Real.Real, y.Real.Imag, y.Real.Jmag, y.Real.Kmag))
+//@ ensures same(result.Dual.Imag, quat.mulI(x.Real.Real, x.Real.Imag, x.Real.Jmag, x.Real.Kmag, y.Dual.Real, y.Dual.Imag, y.Dual.Jmag, y.Dual.Kmag) + quat.mulI(x.Dual.Real, x.Dual.Imag, x.Dual.Jmag, x.Dual.Kmag, y.Real.Real, y.Real.Imag, y.Real.Jmag, y.Real.Kmag))
+//@ ensures same(result.Dual.Jmag, quat.mulJ(x.Real.Real, x.Real.Imag, x.Real.Jmag, x.Real.Kmag, y.Dual.Real, y.Dual.Imag, y.Dual.Jmag, y.Dual.Kmag) + quat.mulJ(x.Dual.Real, x.Dual.Imag, x.Dual.Jmag, x.Dual.Kmag, y.Real.Real, y.Real.Imag, y.Real.Jmag, y.Real.Kmag))
+//@ ensures same(result.Dual.Kmag, quat.mulK(x.Real.Real, x.Real.Imag, x.Real.Jmag, x.Real.Kmag, y.Dual.Real, y.Dual.Imag, y.Dual.Jmag, y.Dual.Kmag) + quat.mulK(x.Dual.Real, x.Dual.Imag, x.Dual.Jmag, x.Dual.Kmag, y.Real.Real, y.Real.Imag, y.Real.Jmag, y.Real.Kmag))
+
+//@ func Scale props: C18
+//@ writes nothing
+//@ ensures same(result.Real.Real, f * d.Real.Real)
+//@ ensures same(result.Real.Imag, f * d.Real.Imag)
+//@ ensures same(result.Real.Jmag, f * d.Real.Jmag)
+//@ ensures same(result.Real.Kmag, f * d.Real.Kmag)
+//@ ensures same(result.Dual.Real, f * d.Dual.Real)
+//@ ensures same(result.Dual.Imag, f * d.Dual.Imag)
+//@ ensures same(result.Dual.Jmag, f * d.Dual.Jmag)
+//@ ensures same(result.Dual.Kmag, f * d.Dual.Kmag)
+
+// Conj: quaternion conjugate of both parts and the dual part negated (by scaling with -1)
+//@ func Conj props: C18
+//@ writes nothing
+//@ ensures same(result.Real.Real, d.Real.Real) && same(result.Real.Imag, -d.Real.Imag) && same(result.Real.Jmag, -d.Real.Jmag) && same(result.Real.Kmag, -d.Real.Kmag)
+//@ ensures same(result.Dual.Real, -1*d.Dual.Real) && same(result.Dual.Imag, -1*(-d.Dual.Imag)) && same(result.Dual.Jmag, -1*(-d.Dual.Jmag)) && same(result.Dual.Kmag, -1*(-d.Dual.Kmag))
+
+//@ func ConjDual props: C18
+//@ writes nothing
+//@ ensures same(result.Real.Real, d.Real.Real) && same(result.Real.Imag, d.Real.Imag) && same(result.Real.Jmag, d.Real.Jmag) && same(result.Real.Kmag, d.Real.Kmag)
+//@ ensures same(result.Dual.Real, -1*d.Dual.Real) && same(result.Dual.Imag, -1*d.Dual.Imag) && same(result.Dual.Jmag, -1*d.Dual.Jmag) && same(result.Dual.Kmag, -1*d.Dual.Kmag)
+
+//@ func ConjQuat props: C18
+//@ writes nothing
+//@ ensures same(result.Real.Real, d.Real.Real) && same(result.Real.Imag, -d.Real.Imag) && same(result.Real.Jmag, -d.Real.Jmag) && same(result.Real.Kmag, -d.Real.Kmag)
+//@ ensures same(result.Dual.Real, d.Dual.Real) && same(result.Dual.Imag, -d.Dual.Imag) && same(result.Dual.Jmag, -d.Dual.Jmag) && same(result.Dual.Kmag, -d.Dual.Kmag)
+
+// Abs is built from quat.Abs, whose value is not specified (see num/quat): only the
+// non-negativity of both parts in exact arithmetic. Inv (built from quat.Inv) is not under contract.
+//@ func Abs props: C18
+//@ writes nothing
+//@ ensures [real] result.Real >= 0 && result.Emag >= 0
+
+// ---- algebraic laws (exact arithmetic) ------------------------------------------
+
+// (a*b)*c == a*(b*c)
+//@ lemma mul_associative props: C18
+//@ floats: real
+//@ var ar0 float64, ar1 float64, ar2 float64, ar3 float64, ad0 float64, ad1 float64, ad2 float64, ad3 float64, br0 float64, br1 float64, br2 float64, br3 float64, bd0 float64, bd1 float64, bd2 float64, bd3 float64, cr0 float64, cr1 float64, cr2 float64, cr3 float64, cd0 float64, cd1 float64, cd2 float64, cd3 float64
+//@ goal quat.mulR(quat.mulR(ar0, ar1, ar2, ar3, br0, br1, br2, br3), quat.mulI(ar0, ar1, ar2, ar3, br0, br1, br2, br3), quat.mulJ(ar0, ar1, ar2, ar3, br0, br1, br2, br3), quat.mulK(ar0, ar1, ar2, ar3, br0, br1, br2, br3), cr0, cr1, cr2, cr3) == quat.mulR(ar0, ar1, ar2, ar3, quat.mulR(br0, br1, br2, br3, cr0, cr1, cr2, cr3), quat.mulI(br0, br1, br2, br3, cr0, cr1, cr2, cr3), quat.mulJ(br0, br1, br2, br3, cr0, cr1, cr2, cr3), quat.mulK(br0, br1, br2, br3, cr0, cr1, cr2, cr3)) && quat.mulI(quat.mulR(ar0, ar1, ar2, ar3, br0, br1, br2, br3), quat.mulI(ar0, ar1, ar2, ar3, br0, br1, br2, br3), quat.mulJ(ar0, ar1, ar2, ar3, br0, br1, br2, br3), quat.mulK(ar0, ar1, ar2, ar3, br0, br1, br2, br3), cr0, cr1, cr2, cr3) == quat.mulI(ar0, ar1, ar2, ar3, quat.mulR(br0, br1, br2, br3, cr0, cr1, cr2, cr3), quat.mulI(br0, br1, br2, br3, cr0, cr1, cr2, cr3), quat.mulJ(br0, br1, br2, br3, cr0, cr1, cr2, cr3), quat.mulK(br0, br1, br2, br3, cr0, cr1, cr2, cr3)) && quat.mulJ(quat.mulR(ar0, ar1, ar2, ar3, br0, br1, br2, br3), quat.mulI(ar0, ar1, ar2, ar3, br0, br1, br2, br3), quat.mulJ(ar0, ar1, ar2, ar3, br0, br1, br2, br3), quat.mulK(ar0, ar1, ar2, ar3, br0, br1, br2, br3), cr0, cr1, cr2, cr3) == quat.mulJ(ar0, ar1, ar2, ar3, quat.mulR(br0, br1, br2, br3, cr0, cr1, cr2, cr3), quat.mulI(br0, br1, br2, br3, cr0, cr1, cr2, cr3), quat.mulJ(br0, br1, br2, br3, cr0, cr1, cr2, cr3), quat.mulK(br0, br1, br2, br3, cr0, cr1, cr2, cr3)) && quat.mulK(quat.mulR(ar0, ar1, ar2, ar3, br0, br1, br2, br3), quat.mulI(ar0, ar1, ar2, ar3, br0, br1, br2, br3), quat.mulJ(ar0, ar1, ar2, ar3, br0, br1, br2, br3), quat.mulK(ar0, ar1, ar2, ar3, br0, br1, br2, br3), cr0, cr1, cr2, cr3) == quat.mulK(ar0, ar1, ar2, ar3, quat.mulR(br0, br1, br2, br3, cr0, cr1, cr2, cr3), quat.mulI(br0, br1, br2, br3, cr0, cr1, cr2, cr3), quat.mulJ(br0, br1, br2, br3, cr0, cr1, cr2, cr3), quat.mulK(br0, br1, br2, br3, cr0, cr1, cr2, cr3)) && (quat.mulR(quat.mulR(ar0, ar1, ar2, ar3, br0, br1, br2, br3), quat.mulI(ar0, ar1, ar2, ar3, br0, br1, br2, br3), quat.mulJ(ar0, ar1, ar2, ar3, br0, br1, br2, br3), quat.mulK(ar0, ar1, ar2, ar3, br0, br1, br2, br3), cd0, cd1, cd2, cd3) + quat.mulR((quat.mulR(ar0, ar1, ar2, ar3, bd0, bd1, bd2, bd3) + quat.mulR(ad0, ad1, ad2, ad3, br0, br1, br2, br3)), (quat.mulI(ar0, ar1, ar2, ar3, bd0, bd1, bd2, bd3) + quat.mulI(ad0, ad1, ad2, ad3, br0, br1, br2, br3)), (quat.mulJ(ar0, ar1, ar2, ar3, bd0, bd1, bd2, bd3) + quat.mulJ(ad0, ad1, ad2, ad3, br0, br1, br2, br3)), (quat.mulK(ar0, ar1, ar2, ar3, bd0, bd1, bd2, bd3) + quat.mulK(ad0, ad1, ad2, ad3, br0, br1, br2, br3)), cr0, cr1, cr2, cr3)) == (quat.mulR(ar0, ar1, ar2, ar3, (quat.mulR(br0, br1, br2, br3, cd0, cd1, cd2, cd3) + quat.mulR(bd0, bd1, bd2, bd3, cr0, cr1, cr2, cr3)), (quat.mulI(br0, br1, br2, br3, cd0, cd1, cd2, cd3) + quat.mulI(bd0, bd1, bd2, bd3, cr0, cr1, cr2, cr3)), (quat.mulJ(br0, br1, br2, br3, cd0, cd1, cd2, cd3) + quat.mulJ(bd0, bd1, bd2, bd3, cr0, cr1, cr2, cr3)), (quat.mulK(br0, br1, br2, br3, cd0, cd1, cd2, cd3) + quat.mulK(bd0, bd1, bd2, bd3, cr0, cr1, cr2, cr3))) + quat.mulR(ad0, ad1, ad2, ad3, quat.mulR(br0, br1, br2, br3, cr0, cr1, cr2, cr3), quat.mulI(br0, br1, br2, br3, cr0, cr1, cr2, cr3), quat.mulJ(br0, br1, br2, br3, cr0, cr1, cr2, cr3), quat.mulK(br0, br1, br2, br3, cr0, cr1, cr2, cr3))) && (quat.mulI(quat.mulR(ar0, ar1, ar2, ar3, br0, br1, br2, br3), quat.mulI(ar0, ar1, ar2, ar3, br0, br1, br2, br3), quat.mulJ(ar0, ar1, ar2, ar3, br0, br1, br2, br3), quat.mulK(ar0, ar1, ar2, ar3, br0, br1, br2, br3), cd0, cd1, cd2, cd3) + quat.mulI((quat.mulR(ar0, ar1, ar2, ar3, bd0, bd1, bd2, bd3) + quat.mulR(ad0, ad1, ad2, ad3, br0, br1, br2, br3)), (quat.mulI(ar0, ar1, ar2, ar3, bd0, bd1, bd2, bd3) + quat.mulI(ad0, ad1, ad2, ad3, br0, br1, br2, br3)), (quat.mulJ(ar0, ar1, ar2, ar3, bd0, bd1, bd2, bd3) + quat.mulJ(ad0, ad1, ad2, ad3, br0, br1, br2, br3)), (quat.mulK(ar0, ar1, ar2, ar3, bd0, bd1, bd2, bd3) + quat.mulK(ad0, ad1, ad2, ad3, br0, br1, br2, br3)), cr0, cr1, cr2, cr3)) == (quat.mulI(ar0, ar1, ar2, ar3, (quat.mulR(br0, br1, br2, br3, cd0, cd1, cd2, cd3) + quat.mulR(bd0, bd1, bd2, bd3, cr0, cr1, cr2, cr3)), (quat.mulI(br0, br1, br2, br3, cd0, cd1, cd2, cd3) + quat.mulI(bd0, bd1, bd2, bd3, cr0, cr1, cr2, cr3)), (quat.mulJ(br0, br1, br2, br3, cd0, cd1, cd2, cd3) + quat.mulJ(bd0, bd1, bd2, bd3, cr0, cr1, cr2, cr3)), (quat.mulK(br0, br1, br2, br3, cd0, cd1, cd2, cd3) + quat.mulK(bd0, bd1, bd2, bd3, cr0, cr1, cr2, cr3))) + quat.mulI(ad0, ad1, ad2, ad3, quat.mulR(br0, br1, br2, br3, cr0, cr1, cr2, cr3), quat.mulI(br0, br1, br2, br3, cr0, cr1, cr2, cr3), quat.mulJ(br0, br1, br2, br3, cr0, cr1, cr2, cr3), quat.mulK(br0, br1, br2, br3, cr0, cr1, cr2, cr3))) && (quat.mulJ(quat.mulR(ar0, ar1, ar2, ar3, br0, br1, br2, br3), quat.mulI(ar0, ar1, ar2, ar3, br0, br1, br2, br3), quat.mulJ(ar0, ar1, ar2, ar3, br0, br1, br2, br3), quat.mulK(ar0, ar1, ar2, ar3, br0, br1, br2, br3), cd0, cd1, cd2, cd3) + quat.mulJ((quat.mulR(ar0, ar1, ar2, ar3, bd0, bd1, bd2, bd3) + quat.mulR(ad0, ad1, ad2, ad3, br0, br1, br2, br3)), (quat.mulI(ar0, ar1, ar2, ar3, bd0, bd1, bd2, bd3) + quat.mulI(ad0, ad1, ad2, ad3, br0, br1, br2, br3)), (quat.mulJ(ar0, ar1, ar2, ar3, bd0, bd1, bd2, bd3) + quat.mulJ(ad0, ad1, ad2, ad3, br0, br1, br2, br3)), (quat.mulK(ar0, ar1, ar2, ar3, bd0, bd1, bd2, bd3) + quat.mulK(ad0, ad1, ad2, ad3, br0, br1, br2, br3)), cr0, cr1, cr2, cr3)) == (quat.mulJ(ar0, ar1, ar2, ar3, (quat.mulR(br0, br1, br2, br3, cd0, cd1, cd2, cd3) + quat.mulR(bd0, bd1, bd2, bd3, cr0, cr1, cr2, cr3)), (quat.mulI(br0, br1, br2, br3, cd0, cd1, cd2, cd3) + quat.mulI(bd0, bd1, bd2, bd3, cr0, cr1, cr2, cr3)), (quat.mulJ(br0, br1, br2, br3, cd0, cd1, cd2, cd3) + quat.mulJ(bd0, bd1, bd2, bd3, cr0, cr1, cr2, cr3)), (quat.mulK(br0, br1, br2, br3, cd0, cd1, cd2, cd3) + quat.mulK(bd0, bd1, bd2, bd3, cr0, cr1, cr2, cr3))) + quat.mulJ(ad0, ad1, ad2, ad3, quat.mulR(br0, br1, br2, br3, cr0, cr1, cr2, cr3), quat.mulI(br0, br1, br2, br3, cr0, cr1, cr2, cr3), quat.mulJ(br0, br1, br2, br3, cr0, cr1, cr2, cr3), quat.mulK(br0, br1, br2, br3, cr0, cr1, cr2, cr3))) && (quat.mulK(quat.mulR(ar0, ar1, ar2, ar3, br0, br1, br2, br3), quat.mulI(ar0, ar1, ar2, ar3, br0, br1, br2, br3), quat.mulJ(ar0, ar1, ar2, ar3, br0, br1, br2, br3), quat.mulK(ar0, ar1, ar2, ar3, br0, br1, br2, br3), cd0, cd1, cd2, cd3) + quat.mulK((quat.mulR(ar0, ar1, ar2, ar3, bd0, bd1, bd2, bd3) + quat.mulR(ad0, ad1, ad2, ad3, br0, br1, br2, br3)), (quat.mulI(ar0, ar1, ar2, ar3, bd0, bd1, bd2, bd3) + quat.mulI(ad0, ad1, ad2, ad3, br0, br1, br2, br3)), (quat.mulJ(ar0, ar1, ar2, ar3, bd0, bd1, bd2, bd3) + quat.mulJ(ad0, ad1, ad2, ad3, br0, br1, br2, br3)), (quat.mulK(ar0, ar1, ar2, ar3, bd0, bd1, bd2, bd3) + quat.mulK(ad0, ad1, ad2, ad3, br0, br1, br2, br3)), cr0, cr1, cr2, cr3)) == (quat.mulK(ar0, ar1, ar2, ar3, (quat.mulR(br0, br1, br2, br3, cd0, cd1, cd2, cd3) + quat.mulR(bd0, bd1, bd2, bd3, cr0, cr1, cr2, cr3)), (quat.mulI(br0, br1, br2, br3, cd0, cd1, cd2, cd3) + quat.mulI(bd0, bd1, bd2, bd3, cr0, cr1, cr2, cr3)), (quat.mulJ(br0, br1, br2, br3, cd0, cd1, cd2, cd3) + quat.mulJ(bd0, bd1, bd2, bd3, cr0, cr1, cr2, cr3)), (quat.mulK(br0, br1, br2, br3, cd0, cd1, cd2, cd3) + quat.mulK(bd0, bd1, bd2, bd3, cr0, cr1, cr2, cr3))) + quat.mulK(ad0, ad1, ad2, ad3, quat.mulR(br0, br1, br2, br3, cr0, cr1, cr2, cr3), quat.mulI(br0, br1, br2, br3, cr0, cr1, cr2, cr3), quat.mulJ(br0, br1, br2, br3, cr0, cr1, cr2, cr3), quat.mulK(br0, br1, br2, br3, cr0, cr1, cr2, cr3)))
+
+// a*(b+c) == a*b + a*c
+//@ lemma mul_distributes_left props: C18
+//@ floats: real
+//@ var ar0 float64, ar1 float64, ar2 float64, ar3 float64, ad0 float64, ad1 float64, ad2 float64, ad3 float64, br0 float64, br1 float64, br2 float64, br3 float64, bd0 float64, bd1 float64, bd2 float64, bd3 float64, cr0 float64, cr1 float64, cr2 float64, cr3 float64, cd0 float64, cd1 float64, cd2 float64, cd3 float64
+//@ goal quat.mulR(ar0, ar1, ar2, ar3, (br0 + cr0), (br1 + cr1), (br2 + cr2), (br3 + cr3)) == (quat.mulR(ar0, ar1, ar2, ar3, br0, br1, br2, br3) + quat.mulR(ar0, ar1, ar2, ar3, cr0, cr1, cr2, cr3)) && quat.mulI(ar0, ar1, ar2, ar3, (br0 + cr0), (br1 + cr1), (br2 + cr2), (br3 + cr3)) == (quat.mulI(ar0, ar1, ar2, ar3, br0, br1, br2, br3) + quat.mulI(ar0, ar1, ar2, ar3, cr0, cr1, cr2, cr3)) && quat.mulJ(ar0, ar1, ar2, ar3, (br0 + cr0), (br1 + cr1), (br2 + cr2), (br3 + cr3)) == (quat.mulJ(ar0, ar1, ar2, ar3, br0, br1, br2, br3) + quat.mulJ(ar0, ar1, ar2, ar3, cr0, cr1, cr2, cr3)) && quat.mulK(ar0, ar1, ar2, ar3, (br0 + cr0), (br1 + cr1), (br2 + cr2), (br3 + cr3)) == (quat.mulK(ar0, ar1, ar2, ar3, br0, br1, br2, br3) + quat.mulK(ar0, ar1, ar2, ar3, cr0, cr1, cr2, cr3)) && (quat.mulR(ar0, ar1, ar2, ar3, (bd0 + cd0), (bd1 + cd1), (bd2 + cd2), (bd3 + cd3)) + quat.mulR(ad0, ad1, ad2, ad3, (br0 + cr0), (br1 + cr1), (br2 + cr2), (br3 + cr3))) == ((quat.mulR(ar0, ar1, ar2, ar3, bd0, bd1, bd2, bd3) + quat.mulR(ad0, ad1, ad2, ad3, br0, br1, br2, br3)) + (quat.mulR(ar0, ar1, ar2, ar3, cd0, cd1, cd2, cd3) + quat.mulR(ad0, ad1, ad2, ad3, cr0, cr1, cr2, cr3))) && (quat.mulI(ar0, ar1, ar2, ar3, (bd0 + cd0), (bd1 + cd1), (bd2 + cd2), (bd3 + cd3)) + quat.mulI(ad0, ad1, ad2, ad3, (br0 + cr0), (br1 + cr1), (br2 + cr2), (br3 + cr3))) == ((quat.mulI(ar0, ar1, ar2, ar3, bd0, bd1, bd2, bd3) + quat.mulI(ad0, ad1, ad2, ad3, br0, br1, br2, br3)) + (quat.mulI(ar0, ar1, ar2, ar3, cd0, cd1, cd2, cd3) + quat.mulI(ad0, ad1, ad2, ad3, cr0, cr1, cr2, cr3))) && (quat.mulJ(ar0, ar1, ar2, ar3, (bd0 + cd0), (bd1 + cd1), (bd2 + cd2), (bd3 + cd3)) + quat.mulJ(ad0, ad1, ad2, ad3, (br0 + cr0), (br1 + cr1), (br2 + cr2), (br3 + cr3))) == ((quat.mulJ(ar0, ar1, ar2, ar3, bd0, bd1, bd2, bd3) + quat.mulJ(ad0, ad1, ad2, ad3, br0, br1, br2, br3)) + (quat.mulJ(ar0, ar1, ar2, ar3, cd0, cd1, cd2, cd3) + quat.mulJ(ad0, ad1, ad2, ad3, cr0, cr1, cr2, cr3))) && (quat.mulK(ar0, ar1, ar2, ar3, (bd0 + cd0), (bd1 + cd1), (bd2 + cd2), (bd3 + cd3)) + quat.mulK(ad0, ad1, ad2, ad3, (br0 + cr0), (br1 + cr1), (br2 + cr2), (br3 + cr3))) == ((quat.mulK(ar0, ar1, ar2, ar3, bd0, bd1, bd2, bd3) + quat.mulK(ad0, ad1, ad2, ad3, br0, br1, br2, br3)) + (quat.mulK(ar0, ar1, ar2, ar3, cd0, cd1, cd2, cd3) + quat.mulK(ad0, ad1, ad2, ad3, cr0, cr1, cr2, cr3)))
+
+// (a+b)*c == a*c + b*c
+//@ lemma mul_distributes_right props: C18
+//@ floats: real
+//@ var ar0 float64, ar1 float64, ar2 float64, ar3 float64, ad0 float64, ad1 float64, ad2 float64, ad3 float64, br0 float64, br1 float64, br2 float64, br3 float64, bd0 float64, bd1 float64, bd2 float64, bd3 float64, cr0 float64, cr1 float64, cr2 float64, cr3 float64, cd0 float64, cd1 float64, cd2 float64, cd3 float64
+//@ goal quat.mulR((ar0 + br0), (ar1 + br1), (ar2 + br2), (ar3 + br3), cr0, cr1, cr2, cr3) == (quat.mulR(ar0, ar1, ar2, ar3, cr0, cr1, cr2, cr3) + quat.mulR(br0, br1, br2, br3, cr0, cr1, cr2, cr3)) && quat.mulI((ar0 + br0), (ar1 + br1), (ar2 + br2), (ar3 + br3), cr0, cr1, cr2, cr3) == (quat.mulI(ar0, ar1, ar2, ar3, cr0, cr1, cr2, cr3) + quat.mulI(br0, br1, br2, br3, cr0, cr1, cr2, cr3)) && quat.mulJ((ar0 + br0), (ar1 + br1), (ar2 + br2), (ar3 + br3), cr0, cr1, cr2, cr3) == (quat.mulJ(ar0, ar1, ar2, ar3, cr0, cr1, cr2, cr3) + quat.mulJ(br0, br1, br2, br3, cr0, cr1, cr2, cr3)) && quat.mulK((ar0 + br0), (ar1 + br1), (ar2 + br2), (ar3 + br3), cr0, cr1, cr2, cr3) == (quat.mulK(ar0, ar1, ar2, ar3, cr0, cr1, cr2, cr3) + quat.mulK(br0, br1, br2, br3, cr0, cr1, cr2, cr3)) && (quat.mulR((ar0 + br0), (ar1 + br1), (ar2 + br2), (ar3 + br3), cd0, cd1, cd2, cd3) + quat.mulR((ad0 + bd0), (ad1 + bd1), (ad2 + bd2), (ad3 + bd3), cr0, cr1, cr2, cr3)) == ((quat.mulR(ar0, ar1, ar2, ar3, cd0, cd1, cd2, cd3) + quat.mulR(ad0, ad1, ad2, ad3, cr0, cr1, cr2, cr3)) + (quat.mulR(br0, br1, br2, br3, cd0, cd1, cd2, cd3) + quat.mulR(bd0, bd1, bd2, bd3, cr0, cr1, cr2, cr3))) && (quat.mulI((ar0 + br0), (ar1 + br1), (ar2 + br2), (ar3 + br3), cd0, cd1, cd2, cd3) + quat.mulI((ad0 + bd0), (ad1 + bd1), (ad2 + bd2), (ad3 + bd3), cr0, cr1, cr2, cr3)) == ((quat.mulI(ar0, ar1, ar2, ar3, cd0, cd1, cd2, cd3) + quat.mulI(ad0, ad1, ad2, ad3, cr0, cr1, cr2, cr3)) + (quat.mulI(br0, br1, br2, br3, cd0, cd1, cd2, cd3) + quat.mulI(bd0, bd1, bd2, bd3, cr0, cr1, cr2, cr3))) && (quat.mulJ((ar0 + br0), (ar1 + br1), (ar2 + br2), (ar3 + br3), cd0, cd1, cd2, cd3) + quat.mulJ((ad0 + bd0), (ad1 + bd1), (ad2 + bd2), (ad3 + bd3), cr0, cr1, cr2, cr3)) == ((quat.mulJ(ar0, ar1, ar2, ar3, cd0, cd1, cd2, cd3) + quat.mulJ(ad0, ad1, ad2, ad3, cr0, cr1, cr2, cr3)) + (quat.mulJ(br0, br1, br2, br3, cd0, cd1, cd2, cd3) + quat.mulJ(bd0, bd1, bd2, bd3, cr0, cr1, cr2, cr3))) && (quat.mulK((ar0 + br0), (ar1 + br1), (ar2 + br2), (ar3 + br3), cd0, cd1, cd2, cd3) + quat.mulK((ad0 + bd0), (ad1 + bd1), (ad2 + bd2), (ad3 + bd3), cr0, cr1, cr2, cr3)) == ((quat.mulK(ar0, ar1, ar2, ar3, cd0, cd1, cd2, cd3) + quat.mulK(ad0, ad1, ad2, ad3, cr0, cr1, cr2, cr3)) + (quat.mulK(br0, br1, br2, br3, cd0, cd1, cd2, cd3) + quat.mulK(bd0, bd1, bd2, bd3, cr0, cr1, cr2, cr3)))
+
+// ConjQuat(a*b) == ConjQuat(b)*ConjQuat(a)
+//@ lemma conjquat_antihomomorphism props: C18
+//@ floats: real
+//@ var ar0 float64, ar1 float64, ar2 float64, ar3 float64, ad0 float64, ad1 float64, ad2 float64, ad3 float64, br0 float64, br1 float64, br2 float64, br3 float64, bd0 float64, bd1 float64, bd2 float64, bd3 float64
+//@ goal quat.mulR(ar0, ar1, ar2, ar3, br0, br1, br2, br3) == quat.mulR(br0, (-br1), (-br2), (-br3), ar0, (-ar1), (-ar2), (-ar3)) && (-quat.mulI(ar0, ar1, ar2, ar3, br0, br1, br2, br3)) == quat.mulI(br0, (-br1), (-br2), (-br3), ar0, (-ar1), (-ar2), (-ar3)) && (-quat.mulJ(ar0, ar1, ar2, ar3, br0, br1, br2, br3)) == quat.mulJ(br0, (-br1), (-br2), (-br3), ar0, (-ar1), (-ar2), (-ar3)) && (-quat.mulK(ar0, ar1, ar2, ar3, br0, br1, br2, br3)) == quat.mulK(br0, (-br1), (-br2), (-br3), ar0, (-ar1), (-ar2), (-ar3)) && (quat.mulR(ar0, ar1, ar2, ar3, bd0, bd1, bd2, bd3) + quat.mulR(ad0, ad1, ad2, ad3, br0, br1, br2, br3)) == (quat.mulR(br0, (-br1), (-br2), (-br3), ad0, (-ad1), (-ad2), (-ad3)) + quat.mulR(bd0, (-bd1), (-bd2), (-bd3), ar0, (-ar1), (-ar2), (-ar3))) && (-(quat.mulI(ar0, ar1, ar2, ar3, bd0, bd1, bd2, bd3) + quat.mulI(ad0, ad1, ad2, ad3, br0, br1, br2, br3))) == (quat.mulI(br0, (-br1), (-br2), (-br3), ad0, (-ad1), (-ad2), (-ad3)) + quat.mulI(bd0, (-bd1), (-bd2), (-bd3), ar0, (-ar1), (-ar2), (-ar3))) && (-(quat.mulJ(ar0, ar1, ar2, ar3, bd0, bd1, bd2, bd3) + quat.mulJ(ad0, ad1, ad2, ad3, br0, br1, br2, br3))) == (quat.mulJ(br0, (-br1), (-br2), (-br3), ad0, (-ad1), (-ad2), (-ad3)) + quat.mulJ(bd0, (-bd1), (-bd2), (-bd3), ar0, (-ar1), (-ar2), (-ar3))) && (-(quat.mulK(ar0, ar1, ar2, ar3, bd0, bd1, bd2, bd3) + quat.mulK(ad0, ad1, ad2, ad3, br0, br1, br2, br3))) == (quat.mulK(br0, (-br1), (-br2), (-br3), ad0, (-ad1), (-ad2), (-ad3)) + quat.mulK(bd0, (-bd1), (-bd2), (-bd3), ar0, (-ar1), (-ar2), (-ar3)))
+
+// ConjDual(a*b) == ConjDual(a)*ConjDual(b)
+//@ lemma conjdual_homomorphism props: C18
+//@ floats: real
+//@ var ar0 float64, ar1 float64, ar2 float64, ar3 float64, ad0 float64, ad1 float64, ad2 float64, ad3 float64, br0 float64, br1 float64, br2 float64, br3 float64, bd0 float64, bd1 float64, bd2 float64, bd3 float64
+//@ goal quat.mulR(ar0, ar1, ar2, ar3, br0, br1, br2, br3) == quat.mulR(ar0, ar1, ar2, ar3, br0, br1, br2, br3) && quat.mulI(ar0, ar1, ar2, ar3, br0, br1, br2, br3) == quat.mulI(ar0, ar1, ar2, ar3, br0, br1, br2, br3) && quat.mulJ(ar0, ar1, ar2, ar3, br0, br1, br2, br3) == quat.mulJ(ar0, ar1, ar2, ar3, br0, br1, br2, br3) && quat.mulK(ar0, ar1, ar2, ar3, br0, br1, br2, br3) == quat.mulK(ar0, ar1, ar2, ar3, br0, br1, br2, br3) && (-(quat.mulR(ar0, ar1, ar2, ar3, bd0, bd1, bd2, bd3) + quat.mulR(ad0, ad1, ad2, ad3, br0, br1, br2, br3))) == (quat.mulR(ar0, ar1, ar2, ar3, (-bd0), (-bd1), (-bd2), (-bd3)) + quat.mulR((-ad0), (-ad1), (-ad2), (-ad3), br0, br1, br2, br3)) && (-(quat.mulI(ar0, ar1, ar2, ar3, bd0, bd1, bd2, bd3) + quat.mulI(ad0, ad1, ad2, ad3, br0, br1, br2, br3))) == (quat.mulI(ar0, ar1, ar2, ar3, (-bd0), (-bd1), (-bd2), (-bd3)) + quat.mulI((-ad0), (-ad1), (-ad2), (-ad3), br0, br1, br2, br3)) && (-(quat.mulJ(ar0, ar1, ar2, ar3, bd0, bd1, bd2, bd3) + quat.mulJ(ad0, ad1, ad2, ad3, br0, br1, br2, br3))) == (quat.mulJ(ar0, ar1, ar2, ar3, (-bd0), (-bd1), (-bd2), (-bd3)) + quat.mulJ((-ad0), (-ad1), (-ad2), (-ad3), br0, br1, br2, br3)) && (-(quat.mulK(ar0, ar1, ar2, ar3, bd0, bd1, bd2, bd3) + quat.mulK(ad0, ad1, ad2, ad3, br0, br1, br2, br3))) == (quat.mulK(ar0, ar1, ar2, ar3, (-bd0), (-bd1), (-bd2), (-bd3)) + quat.mulK((-ad0), (-ad1), (-ad2), (-ad3), br0, br1, br2, br3))
+
+// Conj(a*b) == Conj(b)*Conj(a)
+//@ lemma conj_antihomomorphism props: C18
+//@ floats: real
+//@ var ar0 float64, ar1 float64, ar2 float64, ar3 float64, ad0 float64, ad1 float64, ad2 float64, ad3 float64, br0 float64, br1 float64, br2 float64, br3 float64, bd0 float64, bd1 float64, bd2 float64, bd3 float64
+//@ goal quat.mulR(ar0, ar1, ar2, ar3, br0, br1, br2, br3) == quat.mulR(br0, (-br1), (-br2), (-br3), ar0, (-ar1), (-ar2), (-ar3)) && (-quat.mulI(ar0, ar1, ar2, ar3, br0, br1, br2, br3)) == quat.mulI(br0, (-br1), (-br2), (-br3), ar0, (-ar1), (-ar2), (-ar3)) && (-quat.mulJ(ar0, ar1, ar2, ar3, br0, br1, br2, br3)) == quat.mulJ(br0, (-br1), (-br2), (-br3), ar0, (-ar1), (-ar2), (-ar3)) && (-quat.mulK(ar0, ar1, ar2, ar3, br0, br1, br2, br3)) == quat.mulK(br0, (-br1), (-br2), (-br3), ar0, (-ar1), (-ar2), (-ar3)) && (-(quat.mulR(ar0, ar1, ar2, ar3, bd0, bd1, bd2, bd3) + quat.mulR(ad0, ad1, ad2, ad3, br0, br1, br2, br3))) == (quat.mulR(br0, (-br1), (-br2), (-br3), (-ad0), (-(-ad1)), (-(-ad2)), (-(-ad3))) + quat.mulR((-bd0), (-(-bd1)), (-(-bd2)), (-(-bd3)), ar0, (-ar1), (-ar2), (-ar3))) && (-(-(quat.mulI(ar0, ar1, ar2, ar3, bd0, bd1, bd2, bd3) + quat.mulI(ad0, ad1, ad2, ad3, br0, br1, br2, br3)))) == (quat.mulI(br0, (-br1), (-br2), (-br3), (-ad0), (-(-ad1)), (-(-ad2)), (-(-ad3))) + quat.mulI((-bd0), (-(-bd1)), (-(-bd2)), (-(-bd3)), ar0, (-ar1), (-ar2), (-ar3))) && (-(-(quat.mulJ(ar0, ar1, ar2, ar3, bd0, bd1, bd2, bd3) + quat.mulJ(ad0, ad1, ad2, ad3, br0, br1, br2, br3)))) == (quat.mulJ(br0, (-br1), (-br2), (-br3), (-ad0), (-(-ad1)), (-(-ad2)), (-(-ad3))) + quat.mulJ((-bd0), (-(-bd1)), (-(-bd2)), (-(-bd3)), ar0, (-ar1), (-ar2), (-ar3))) && (-(-(quat.mulK(ar0, ar1, ar2, ar3, bd0, bd1, bd2, bd3) + quat.mulK(ad0, ad1, ad2, ad3, br0, br1, br2, br3)))) == (quat.mulK(br0, (-br1), (-br2), (-br3), (-ad0), (-(-ad1)), (-(-ad2)), (-(-ad3))) + quat.mulK((-bd0), (-(-bd1)), (-(-bd2)), (-(-bd3)), ar0, (-ar1), (-ar2), (-ar3)))
+
+// 1*a == a*1 == a
+//@ lemma one_is_unit props: C18
+//@ floats: real
+//@ var ar0 float64, ar1 float64, ar2 float64, ar3 float64, ad0 float64, ad1 float64, ad2 float64, ad3 float64
+//@ goal quat.mulR(1, 0, 0, 0, ar0, ar1, ar2, ar3) == ar0 && quat.mulI(1, 0, 0, 0, ar0, ar1, ar2, ar3) == ar1 && quat.mulJ(1, 0, 0, 0, ar0, ar1, ar2, ar3) == ar2 && quat.mulK(1, 0, 0, 0, ar0, ar1, ar2, ar3) == ar3 && (quat.mulR(1, 0, 0, 0, ad0, ad1, ad2, ad3) + quat.mulR(0, 0, 0, 0, ar0, ar1, ar2, ar3)) == ad0 && (quat.mulI(1, 0, 0, 0, ad0, ad1, ad2, ad3) + quat.mulI(0, 0, 0, 0, ar0, ar1, ar2, ar3)) == ad1 && (quat.mulJ(1, 0, 0, 0, ad0, ad1, ad2, ad3) + quat.mulJ(0, 0, 0, 0, ar0, ar1, ar2, ar3)) == ad2 && (quat.mulK(1, 0, 0, 0, ad0, ad1, ad2, ad3) + quat.mulK(0, 0, 0, 0, ar0, ar1, ar2, ar3)) == ad3 && quat.mulR(ar0, ar1, ar2, ar3, 1, 0, 0, 0) == ar0 && quat.mulI(ar0, ar1, ar2, ar3, 1, 0, 0, 0) == ar1 && quat.mulJ(ar0, ar1, ar2, ar3, 1, 0, 0, 0) == ar2 && quat.mulK(ar0, ar1, ar2, ar3, 1, 0, 0, 0) == ar3 && (quat.mulR(ar0, ar1, ar2, ar3, 0, 0, 0, 0) + quat.mulR(ad0, ad1, ad2, ad3, 1, 0, 0, 0)) == ad0 && (quat.mulI(ar0, ar1, ar2, ar3, 0, 0, 0, 0) + quat.mulI(ad0, ad1, ad2, ad3, 1, 0, 0, 0)) == ad1 && (quat.mulJ(ar0, ar1, ar2, ar3, 0, 0, 0, 0) + quat.mulJ(ad0, ad1, ad2, ad3, 1, 0, 0, 0)) == ad2 && (quat.mulK(ar0, ar1, ar2, ar3, 0, 0, 0, 0) + quat.mulK(ad0, ad1, ad2, ad3, 1, 0, 0, 0)) == ad3
+
+// ϵ*ϵ == 0
+//@ lemma epsilon_nilpotent props: C18
+//@ floats: real
+//@ var z float64
+//@ goal quat.mulR(0, 0, 0, 0, 0, 0, 0, 0) == 0 && quat.mulI(0, 0, 0, 0, 0, 0, 0, 0) == 0 && quat.mulJ(0, 0, 0, 0, 0, 0, 0, 0) == 0 && quat.mulK(0, 0, 0, 0, 0, 0, 0, 0) == 0 && (quat.mulR(0, 0, 0, 0, 1, 0, 0, 0) + quat.mulR(1, 0, 0, 0, 0, 0, 0, 0)) == 0 && (quat.mulI(0, 0, 0, 0, 1, 0, 0, 0) + quat.mulI(1, 0, 0, 0, 0, 0, 0, 0)) == 0 && (quat.mulJ(0, 0, 0, 0, 1, 0, 0, 0) + quat.mulJ(1, 0, 0, 0, 0, 0, 0, 0)) == 0 && (quat.mulK(0, 0, 0, 0, 1, 0, 0, 0) + quat.mulK(1, 0, 0, 0, 0, 0, 0, 0)) == 0
